@@ -125,12 +125,15 @@ pub fn run(name: &str, a: &[u64]) -> Vec<u64> {
         "cache_trace" => crate::cache::trace(a),
         // ---- end-to-end codec cases
         "enc_packets" => crate::codec::enc_packets(a),
+        "enc_packets_per_block" => crate::codec::enc_packets_per_block(a),
         "layout_packets" => {
             let mut b = a[..5].to_vec();
             b.push(0);
             b.extend_from_slice(&a[5..]);
             crate::codec::enc_packets(&b)
         }
+        "layout_roundtrip_api" => crate::codec::layout_roundtrip_api(a),
+        "dec_feed" => crate::codec::dec_feed(a),
         "layout_roundtrip" => crate::codec::layout_roundtrip(a),
         "repair_window" => crate::codec::repair_window(a),
         "codec_hist" => crate::codec::codec_hist(a),
